@@ -236,7 +236,7 @@ def run(report, tier):
     g = histrun.history_graph(report)
     rng = common.rng('C12')
     triples = [h for h in g.triples() if any(o['op'] == 'SetParam' for o in h) and h[-1]['op'] == 'Solve'
-               and any(o['op'] == 'SetObjective' and o['obj']['id'] == 4 for o in h)]
+               and any(o['op'] == 'SetObjective' and o['obj']['id'] in (4, 8) for o in h)]
     report.extra['setparam_histories_in_model'] = len(triples)
     from .. import histgraph
     sample, report.extra['strata (fill, edit, observation) covered'] = histgraph.stratified(triples, 500 if tier == 'quick' else 6000, rng)
